@@ -545,6 +545,8 @@ class CallMixin:
         c = self.registry.contracts.get(q) if self.registry else None
         if finfo.name == '__repr__':
             return [ok(Opaque(fresh_name('repr'), kind='str'), st)]
+        if q in self.cur_inline_callees:
+            force_inline = True
         if not force_inline and c is not None and not c.inline and q != self.cur_root_target_inline:
             return self.apply_contract(c, finfo, self_val, args, kwargs, st, line)
         if force_inline or (c is not None and c.inline) or q in self.registry.inline or self.auto_inline(finfo):
@@ -553,6 +555,7 @@ class CallMixin:
         raise EngineError(f'call to {q} at line {line}: no contract and not inlinable')
 
     cur_root_target_inline = None
+    cur_inline_callees = ()
 
     def auto_inline(self, finfo):
         """Trivial getters (`return self._x`) and properties are inlined without being listed."""
